@@ -4,7 +4,7 @@
 (* model CliBatch.tla and the trace specification TrBatch.tla.             *)
 (***************************************************************************)
 ValidKinds == {"defines", "usesOwn", "usesOther", "plain", "empty"}
-FaultKinds == {"undecodable", "dirnamed", "dangling", "unserialisable"}
+FaultKinds == {"undecodable", "dirnamed", "dangling", "unserialisable", "faultDefines"}
 \* a valid stylesheet's output in a directory run is what the tool produces for that file alone
 IsolationP(kind, out, single) == kind \in ValidKinds => out = single
 \* a faulty file is reported and produces no output; a valid one is processed and not reported
